@@ -4,7 +4,7 @@
      small d    payload shorter than 2^31 bytes    ps_ok ps    per-sector progress is 0 or >= 16 (header atomic)
      old_ok F   the old file is absent/empty or has at least the 16 header bytes
      0 < now    the clock at load time is positive *)
-From CppcmsV Require Import Base.Tac Base.Sweep C18.Defs C18.Proofs C18.Crash C18.History C18.Sid C18.Link gen.Gen_crc.
+From CppcmsV Require Import Base.Tac Base.Sweep C18.Defs C18.Proofs C18.Crash C18.History C18.Sid C18.Full C18.Link gen.Gen_crc.
 Local Open Scope N_scope.
 
 (* ---- 1. crash safety: every crash state of every save over every old file ----
@@ -43,6 +43,14 @@ Print Assumptions C18_crash_safe_property_family.
 Theorem C18_crash_nothing_written : forall F new, crash_file F new [] = F.
 Proof. exact crash_none_is_old. Qed.
 Print Assumptions C18_crash_nothing_written.
+
+(* the crash model contains the completed save: every sector written with the whole stream *)
+Theorem C18_crash_full_is_save : forall F t d ps,
+  Forall (fun p => N.of_nat (length (new_image t d)) <= p) ps ->
+  N.of_nat (length (new_image t d)) <= SECT * N.of_nat (length ps) ->
+  crash_file F (new_image t d) ps = save_file F t d.
+Proof. exact crash_full_is_save. Qed.
+Print Assumptions C18_crash_full_is_save.
 
 (* ---- 2. the unconditional statement is false: CRC-32 collision witness (KNOWN FINDING) ---- *)
 Theorem C18_crash_collision_witness :
